@@ -78,7 +78,7 @@ def gen_cases(tier, seed):
                         + '/' + rng.choice(['leaf', 'n o', 'c']),
                         rng.choice(['h', 'h', 'm'])])
         yield {'ops': ops, 'absent': ['nope', 'zz9']}
-    n = 1000 if tier == 'quick' else 16 * 5000
+    n = 3000 if tier == 'quick' else 16 * 5000
     for i in range(n):
         yield gen_one(random.Random(f'C17/{seed}/{tier}/{i}'), tier)
 
